@@ -135,6 +135,26 @@ var Mutations = []struct {
 			}
 		}
 	}},
+	{"evidence-nil-proposer", func(b *types.Block) {
+		if len(b.Evidence.Evidence) > 0 {
+			if f, ok := b.Evidence.Evidence[0].(*types.FaultValidatorsEvidence); ok {
+				c := *f
+				c.Proposer = nil // decodes from a 0x00 interface prefix
+				b.Evidence = types.EvidenceData{Evidence: []types.Evidence{&c}}
+				b.Header.EvidenceHash = b.Evidence.Hash()
+			}
+		}
+	}},
+	{"evidence-nil-keys", func(b *types.Block) {
+		if len(b.Evidence.Evidence) > 0 {
+			if f, ok := b.Evidence.Evidence[0].(*types.FaultValidatorsEvidence); ok {
+				c := *f
+				c.Proposer, c.FaultVal = nil, nil
+				b.Evidence = types.EvidenceData{Evidence: []types.Evidence{&c}}
+				b.Header.EvidenceHash = b.Evidence.Hash()
+			}
+		}
+	}},
 	{"data-nil", func(b *types.Block) { b.Data = nil }},
 	{"parenthash", func(b *types.Block) { b.Header.ParentHash[2] ^= 1 }},
 }
